@@ -38,10 +38,14 @@ def r18_1(run, model):
             if not vs and S.pat_head(S.pat_alts(arm["pat"])[0])[0] == "any":
                 catch.append(arm)
         missing = [v for v in allv if v not in covered]
-        ok = not catch or not missing
-        run.ob("R18.1", f"{name}|no catch-all over field types", ok, site(DER, m["sp"]),
-               f"explicit: {sorted(covered)}; variants reaching the catch-all: {missing}",
-               witness="#[derive(ToJson)] struct S { p: (int32, int32) } : the generated body calls .to_json() on a tuple and the typer reports `Method to_json not found` about code the user never wrote")
+        # one obligation per field-type form, so that a form newly falling into the catch-all is a new key
+        for v in allv:
+            if v in ("TCon", "TApp"):
+                continue  # nominal types delegate to their own to_json method by design
+            ok = v in covered or not catch
+            run.ob("R18.1", f"{name}|{v} decided explicitly", ok, site(DER, m["sp"]),
+                   f"{v} {'has its own arm' if v in covered else 'reaches the catch-all (generated .to_json() call)'}",
+                   witness="#[derive(ToJson)] struct S { p: (int32, int32) } : the generated body calls .to_json() on a tuple and the typer reports `Method to_json not found` about code the user never wrote")
 
 
 def r18_7(run, model):
